@@ -92,6 +92,31 @@ class C15(Prop):
             yield {"k": "prog", "prog": p, "pkg": "py", "extra": i % 6 == 0}
             if "M" not in types and "L" not in types and i % (2 if thorough else 4) == 0 and self._torch_ok(p):
                 yield {"k": "prog", "prog": p, "pkg": "torch", "extra": i % 12 == 0}
+        # histories on LIVE operands: the same objects are used in arithmetic, mutated in place by the public
+        # rotate_by / transform_by, and used again (stale caches, aliasing between an operand and earlier results)
+        for t in range(120 if thorough else 40):
+            seq = []
+            names = ["P", "P2", "M", "Q", "Q2"]
+            for _ in range(self.rng.randrange(6, 12)):
+                c = self.rng.random()
+                a, b = self.rng.choice(names), self.rng.choice(names)
+                if c < 0.3:
+                    seq.append(["rot", a, [self.rng.randrange(1, 4), self.rng.randrange(4), self.rng.choice((0, 2))]])
+                elif c < 0.4:
+                    seq.append(["tf", a])
+                elif c < 0.6:
+                    seq.append(["matmul", a, b])
+                elif c < 0.75:
+                    seq.append(["add", a, b])
+                elif c < 0.85:
+                    seq.append(["sub", a, b])
+                elif c < 0.92:
+                    seq.append(["mul", a])
+                else:
+                    seq.append(["trace", a])
+            yield {"k": "live", "seq": seq, "pkg": "py"}
+            if t % 3 == 0:
+                yield {"k": "live", "seq": [s for s in seq if "M" not in s[1:3]], "pkg": "torch"}
         for i in sorted(self.pool):
             typ, terms = self.pool[i]
             if typ == "Q":
@@ -130,6 +155,8 @@ class C15(Prop):
                 rec["exc"] = _exc(e)
                 rec.setdefault("E", 8)
             return [rec]
+        if scn["k"] == "live":
+            return self._live(scn, be, n)
         out = []
         stack = []
         for step in scn["prog"]:
@@ -226,4 +253,55 @@ class C15(Prop):
         return out
 
 
+def _live(self, scn, be, n):
+    objs = {"P": mk(be, *self.pool[1]), "P2": mk(be, *self.pool[2]), "Q": mk(be, *self.pool[6]), "Q2": mk(be, *self.pool[7])}
+    if be.name == "py":
+        objs["M"] = mk(be, *self.pool[4])
+    tfmap = be.cmap([[1, 1, 2], [3, 0, 0], [0, 1, 0], [3, 3, 2]])
+    out = []
+    for st in scn["seq"]:
+        op = st[0]
+        if st[1] not in objs or (len(st) > 2 and isinstance(st[2], str) and st[2] not in objs):
+            continue
+        rec = {"op": op, "n": n, "live": True}
+        try:
+            x = objs[st[1]]
+            if op == "rot":
+                rec["x"] = pv(be, x, n)
+                rec["g"] = st[2]
+                x.rotate_by(be.pauli(st[2]))
+                rec["ret"] = pv(be, x, n)
+                rec["E"] = maxe(rec["x"]) + maxe(rec["ret"])
+            elif op == "tf":
+                x.transform_by(tfmap)      # judged under C03; here it only changes the live operand
+                continue
+            elif op in ("matmul", "add", "sub"):
+                y = objs[st[2]]
+                rec["x"], rec["y"] = pv(be, x, n), pv(be, y, n)
+                rec["expect_refuse"] = False
+                r = (x @ y) if op == "matmul" else (x + y) if op == "add" else (x - y)
+                rec["ret"] = pv(be, r, n)
+                rec["x1"], rec["y1"] = pv(be, x, n), pv(be, y, n)
+                rec["E"] = maxe(rec["x"]) + maxe(rec["y"]) + maxe(rec["ret"])
+            elif op == "mul":
+                rec["x"] = {"t": "K", "terms": [[[0] * n + [0], 1, 0, 1]]}
+                rec["y"] = pv(be, x, n)
+                rec["expect_refuse"] = False
+                r = 0.5 * x
+                rec["ret"] = pv(be, r, n)
+                rec["E"] = 1 + maxe(rec["y"]) + maxe(rec["ret"])
+            elif op == "trace":
+                rec["x"] = pv(be, x, n)
+                rec["ret"] = pv(be, x.trace(), n)
+                rec["E"] = maxe(rec["x"]) + maxe(rec["ret"])
+        except Exception as e:
+            rec["exc"] = _exc(e)
+            rec.setdefault("E", 8)
+            out.append(rec)
+            break
+        out.append(rec)
+    return out
+
+
+C15._live = _live
 PROP = C15
